@@ -168,6 +168,17 @@ func cmdTwo(args []string) {
 		p1.Run, p2.Run = *runBase+2*i+1, *runBase+2*i+2
 		p1.G, p2.G = fmt.Sprintf("g1_%d", p1.Run), fmt.Sprintf("g2_%d", p2.Run)
 		p1.CancelAt, p2.CancelAt = -1, -1
+		// the two graphs must share the very same Task objects: no per-graph TaskMap here
+		for _, q := range []*dh.Plan{&p1, &p2} {
+			q.UseTM = false
+			h := []dh.Op{}
+			for _, o := range q.History {
+				if o.Op != "tmadd" && o.Op != "tmgetbad" {
+					h = append(h, o)
+				}
+			}
+			q.History = h
+		}
 		res := dh.RunPlans([]*dh.Plan{&p1, &p2})
 		// direct observation: the same Task is never inside its function in both graphs at once
 		inside := map[string]string{}
